@@ -4,6 +4,7 @@ import (
 	"fmt"
 	"testing"
 
+	"github.com/hashicorp/go-argmapper"
 	"github.com/hashicorp/go-argmapper/verifharness/engine"
 )
 
@@ -41,7 +42,48 @@ func evalC03(c *engine.Case) engine.Verdict {
 	if reps <= 0 {
 		reps = 1
 	}
-	outs, ws, err := runReps(sc, reps)
+	var outs []engine.Outcome
+	var ws []*engine.World
+	var err error
+	if c.Note == "warm" {
+		// every input-free run-once converter has ALREADY RUN, in an earlier
+		// call of another target that needed its first result: a memoized
+		// provider must not become any more attractive than a fresh one
+		warmed := 0
+		for rep := 0; rep < reps; rep++ {
+			w := engine.NewWorld()
+			target, args, serr := w.Setup(sc)
+			if serr != nil {
+				v.Class("setup-error")
+				return v
+			}
+			for i := range sc.Convs {
+				fs := &sc.Convs[i]
+				pf := w.Funcs[fs.ID]
+				if !fs.Once || len(fs.In) > 0 || len(fs.Out) == 0 || pf == nil {
+					continue
+				}
+				need := fs.Out[0]
+				if engine.IsIface(need.Type) {
+					continue
+				}
+				wt, werr := w.Realize(&engine.FuncSpec{ID: 800 + fs.ID, In: []engine.Label{need}, InForm: engine.FormStruct, OutForm: engine.FormPos})
+				if werr != nil {
+					continue
+				}
+				if wo := w.Call(wt, []argmapper.Arg{argmapper.ConverterFunc(pf), engine.Quiet()}); wo.Err == nil && wo.Panic == "" {
+					warmed++
+				}
+			}
+			outs = append(outs, w.Call(target, args))
+			ws = append(ws, w)
+		}
+		if warmed > 0 {
+			v.Class("memoized-run-once-provider-among-the-distractors")
+		}
+	} else {
+		outs, ws, err = runReps(sc, reps)
+	}
 	if err != nil {
 		v.Class("setup-error")
 		return v
@@ -138,7 +180,23 @@ func genC03(g engine.G) *engine.Case {
 		b.AddInput(engine.Label{Name: p.Name, Type: p.Type, Sub: p.Sub})
 	}
 	b.Sc.JoinTyped = g.Pct(30)
-	return &engine.Case{Sc: b.Sc, Reps: 3}
+	c := &engine.Case{Sc: b.Sc, Reps: 3}
+	if g.Pct(25) {
+		// run-once providers (no inputs) of a NAMED value of a parameter's
+		// type, which an earlier call has already executed ("warm")
+		c.Note = "warm"
+		for _, p := range b.Sc.Target.In {
+			if g.Pct(60) {
+				out := engine.Label{Name: engine.Pick(g, pal.Names), Type: p.Type, Sub: p.Sub, Dyn: p.Type}
+				if p.Named() && g.Bool() {
+					out.Name = p.Name
+				}
+				b.AddConv(engine.FuncSpec{ID: b.NewID(), InForm: engine.FormPos, Out: []engine.Label{out}, OutForm: engine.Pick(g, []string{engine.FormStruct, engine.FormPtr}), Once: true, HasErr: g.Bool()})
+			}
+		}
+		c.Reps = 6
+	}
+	return c
 }
 
 func TestC03(t *testing.T) { runProp(t, "C03", genC03) }
